@@ -30,7 +30,7 @@ def rule_layp(S):
 
 
 def is_load(f, n):
-    if n['k'] == 'CXXMemberCallExpr' and n.get('cn') == 'load' and (f.strip(call_recv(f, n), casts=True) or {}).get('name') == 'body_':
+    if n['k'] == 'CXXMemberCallExpr' and n.get('cn') == 'load' and (f.strip(call_recv(f, n), casts=True) or {}).get('ty', '').replace('const ', '') == 'std::atomic<unsigned long>':
         return True
     return is_call(n, cq=P + '::get_body') and root_var(f, call_recv(f, n)) == 'this'
 
@@ -38,7 +38,7 @@ def is_load(f, n):
 def is_store(f, n):
     if n['k'] == 'CXXMemberCallExpr' and n.get('cn') in ('store', 'exchange', 'fetch_or', 'fetch_and', 'fetch_add',
                                                          'compare_exchange_weak', 'compare_exchange_strong') and \
-            (f.strip(call_recv(f, n), casts=True) or {}).get('name') == 'body_':
+            (f.strip(call_recv(f, n), casts=True) or {}).get('ty', '').replace('const ', '') == 'std::atomic<unsigned long>':
         return True
     return is_call(n, cq=P + '::set_body') and root_var(f, call_recv(f, n)) == 'this'
 
